@@ -610,6 +610,10 @@ def run(ctx):
                        "construction that returned an existing live object, or rebuilt a description freed earlier, "
                        "or an ffi checkpoint with more than 3 description classes. evaluations = operations.")
     ctx.assumptions += [
+        "coq/C27/Gen.v: for each constructor (primitive, pointer, array, void, function) the sources of the "
+        "unique_key slots and the key length handed to get_unique_type, plus textual presence of the statements that "
+        "store the children in the new type, regenerated on every run (fail closed to the snapshot); the model's key "
+        "of a new type is defined from them (key_kids) and Proofs.v is re-proved on the current text",
         "hand-written model C27/Model.v of unique_cache / get_or_insert_unique_type / ctypedescr_dealloc / "
         "remove_dead_unique_reference / tp_clear; tied by this run's differential histories (raw level)",
         "model fact tied by the raw-level correspondence: the key of a type is built from the objects the type itself "
